@@ -79,18 +79,22 @@ def valid(nesting, exit_kind, in_fun):
 
 def run(ctx):
     rng = ctx.rng
-    depth = ctx.scale(2, 3)
+    depth = 3
     cases = []
     for d in range(1, depth + 1):
+        layer = []
         for nesting in itertools.product(CONSTRUCTS, repeat=d):
             for ex in EXITS:
                 for in_fun in (False, True):
                     if not valid(nesting, ex, in_fun):
                         continue
                     for probe in range(d):
-                        cases.append((nesting, ex, in_fun, probe))
-    if ctx.quick() and len(cases) > 1500:
-        cases = rng.sample(cases, 1500)
+                        layer.append((nesting, ex, in_fun, probe))
+        # depth <= 2 exhaustively; depth 3 (an exit crossing two nested blocks inside a loop, three
+        # blocks in all) sampled at quick, exhaustive at thorough
+        if d == 3 and ctx.quick():
+            layer = rng.sample(layer, 1200)
+        cases += layer
     # probes inside the function body, after the construct (frame-level restoration)
     srcs = [build(n, e, f, p, rng) for n, e, f, p in cases]
     extra = []
@@ -103,8 +107,8 @@ def run(ctx):
     all_cases = [(c, s) for c, s in zip(cases, srcs)] + extra
     ctx.rule = ("all nestings of {while, for, for-with-tuple-destructuring, if, if/else, match arm} to depth %d, a `let` "
                 "at every level, exit statement {none, break, continue, return} at the innermost level, at toplevel and "
-                "inside a function, one case per inner variable referenced after the construct (exhaustive at thorough, "
-                "sampled to 1500 at quick) + random generated programs for the trace correspondence. Non-trivial = the "
+                "inside a function, one case per inner variable referenced after the construct (depth <= 2 exhaustive, "
+                "depth 3 sampled to 1200 at quick and exhaustive at thorough) + random generated programs for the trace correspondence. Non-trivial = the "
                 "exit statement crosses at least one block boundary (every case with exit != none, or depth >= 2)." % depth)
     res = MC.run_pairs(ctx, [s for _, s in all_cases], tick_limit=50000)
     hist = {}
